@@ -262,6 +262,12 @@ impl<R> LinkFlowState<R> {
         guard.initial_delivery_count = new;
     }
 
+    /// Make the current delivery-count the initial delivery-count of a new attachment
+    pub fn restart_from_current_delivery_count(&self) {
+        let mut guard = self.lock.write();
+        guard.initial_delivery_count = guard.delivery_count;
+    }
+
     pub fn delivery_count_mut(&self, f: impl Fn(u32) -> u32) {
         let mut guard = self.lock.write();
         let new = f(guard.delivery_count);
